@@ -444,6 +444,8 @@ def run(P, rep, tier):
                         % sorted({g.name for g, _, _ in init_resets})) if not resets and init_resets else ''))
     rep.floor('C04.CVRESET', 1)
 
+    run_msghdr(P, rep, Classes(P), 'C04.MSGHDR', None, 18)
+
 
 def single_thread_entries(P):
     """Thread entries created exactly once per instance (EB_CREATE_THREAD, not EB_CREATE_THREAD_ARRAY)."""
@@ -458,3 +460,95 @@ def single_thread_entries(P):
             else:
                 single.add(a0[1])
     return single - multi
+
+
+# ---------------- MSGHDR: the kernels talk through pooled message objects (the *Results / *Tasks records).  A consumer reads some
+# members of a message unconditionally right after taking it from its FIFO; a producer that fills a message object it took from the
+# empty FIFO must store each of those members before posting, otherwise the consumer acts on what an earlier message left in the
+# pooled object (a stale picture, tile group or row: work done twice or never, i.e. a result that depends on scheduling, or a hang).
+# Consumer side: members read through the dequeued object at statements under no condition (loops only).  Producer side: members
+# stored through the object between its acquisition and the next acquisition of the same local.
+def _msg_objects(f, getter):
+    wr = set()
+    for ev, n in f.calls(getter):
+        a = strip(ev['e'][2][1]) if len(ev['e'][2]) > 1 else None
+        if a is not None and a[0] == 'u' and a[1] == '&':
+            t = strip(a[2])
+            if t is not None and t[0] == 'v':
+                wr.add(t[1])
+    out = {}
+    for d in f.events(('decl', 'st')):
+        e = d.get('e')
+        if e is None:
+            continue
+        if d['k'] == 'decl':
+            n, rhs = d['n'], strip(e)
+        elif e[0] == 'a' and e[1] == '=' and strip(e[2])[0] == 'v':
+            n, rhs = strip(e[2])[1], strip(e[3])
+        else:
+            continue
+        while rhs is not None and rhs[0] == 'k':
+            rhs = strip(rhs[-1])
+        if rhs is not None and rhs[0] == 'm' and rhs[1].endswith('.object_ptr'):
+            r = root_of(rhs)
+            if r is not None and r[1] in wr:
+                out.setdefault(n, []).append(d)
+    return out
+
+
+def run_msghdr(P, rep, C, rule, recs, floor):
+    def is_msg(rec):
+        return rec.endswith('Results') or rec.endswith('Tasks')
+    hdr = {}
+    for f in P.fns:
+        if f.lib != 'Encoder' or f.nocfg or f not in C.runtime:
+            continue
+        for o, ds in _msg_objects(f, 'svt_get_full_object').items():
+            for ev in f.events(('decl', 'st', 'call', 'ret')):
+                e = ev.get('e')
+                if e is None:
+                    continue
+                if not all(k in ('for', 'while') for k, c, l in f.ctl_chain(ev)):
+                    continue
+                for x in subexprs(e):
+                    if x[0] == 'm' and len(x) > 3 and strip(x[3]) is not None and strip(x[3])[0] == 'v' and strip(x[3])[1] == o:
+                        if ev['k'] == 'st' and e[0] == 'a' and strip(e[2]) is x:
+                            continue
+                        rec = x[1].split('.')[0]
+                        if is_msg(rec) and (recs is None or rec in recs):
+                            hdr.setdefault(rec, {}).setdefault(x[1], (f, ev))
+    n = 0
+    for f in P.fns:
+        if f.lib != 'Encoder' or f.nocfg or f not in C.runtime:
+            continue
+        for o, ds in _msg_objects(f, 'svt_get_empty_object').items():
+            for d in ds:
+                flds, started, rec = set(), False, None
+                for ev in f.events(('st', 'decl')):
+                    if ev is d:
+                        started = True
+                        continue
+                    if not started:
+                        continue
+                    e = ev.get('e')
+                    if e is None:
+                        continue
+                    if ev['k'] == 'decl' and ev['n'] == o:
+                        break
+                    if ev['k'] == 'st' and e[0] == 'a' and e[1] == '=':
+                        t = strip(e[2])
+                        if t[0] == 'v' and t[1] == o:
+                            break
+                        if t[0] == 'm' and len(t) > 3 and strip(t[3]) is not None and strip(t[3])[0] == 'v' and strip(t[3])[1] == o:
+                            flds.add(t[1])
+                            rec = t[1].split('.')[0]
+                if rec is None or rec not in hdr:
+                    continue
+                n += 1
+                miss = sorted(x for x in hdr[rec] if x not in flds)
+                cf, cev = hdr[rec][miss[0]] if miss else (None, None)
+                rep.ob(rule, '%s/%s@%d' % (f.name, rec, d['l']), not miss, f.loc(d),
+                       ('%s fills every member the consumer of %s reads unconditionally (%s)' % (f.name, rec, ', '.join(sorted(x.split('.')[1] for x in hdr[rec])))) if not miss else
+                       ('%s posts a pooled %s without storing %s, which %s reads unconditionally (%s): the consumer acts on the value an earlier message left in the object' %
+                        (f.name, rec, ', '.join(x.split('.')[1] for x in miss), cf.name, cf.loc(cev))))
+    rep.floor(rule, floor)
